@@ -209,6 +209,12 @@ pub fn run(ctx: &mut Ctx) {
         check_doc_edits(ctx, t, &other, &mut rng, true);
     }
     ctx.exhaustive.insert("small_scope(<=3 nodes) x all positions -len-2..len+2 and i32 extremes".into(), !ctx.miri);
+    if ctx.shard == 0 && ctx.tier == crate::monitor::Tier::Thorough && !ctx.miri {
+        ctx.next_case();
+        ctx.count("huge_payload_docs");
+        let mut rng = ctx.rng.fork();
+        check_doc_edits(ctx, &gen::huge_payload_doc(), &Tree::Str("x".into()), &mut rng, false);
+    }
     let n = if ctx.miri { ctx.miri_cases(2) } else { ctx.budget(250_000, 5_000_000) };
     for i in 0..n {
         if !ctx.next_case() {
